@@ -128,7 +128,7 @@ func (g s1Gen) query() string {
 	return b.String()
 }
 
-// s2Query: stage S2b — one directed hop with WHERE conjuncts over single variables, every variable read by the RETURN.
+// s2Query: stage S2b — one directed hop with WHERE conjuncts over single variables; the RETURN reads any non-empty selection of a, r, b.
 func (g s1Gen) s2Query() string {
 	kinds := func(opts []string) string { return Pick(g.rng, opts) }
 	a := "(a" + kinds([]string{"", "", ":NodeKind1", ":NodeKind2:NodeKind1"}) + ")"
@@ -144,8 +144,9 @@ func (g s1Gen) s2Query() string {
 			return v + "." + Pick(g.rng, []string{"name", "a", "w", "zz"})
 		}
 	}
-	items := []string{mk("a"), mk("r"), mk("b")}
-	for i := g.rng.Intn(3); i > 0; i-- {
+	// any non-empty selection of the variables may be returned: the optimised translator prunes the frame to the bindings that are read
+	items := []string{mk(Pick(g.rng, []string{"a", "r", "b"}))}
+	for i := g.rng.Intn(4); i > 0; i-- {
 		items = append(items, mk(Pick(g.rng, []string{"a", "r", "b"})))
 	}
 	for i := range items {
@@ -183,6 +184,29 @@ func (g s1Gen) countQuery() string {
 		b.WriteString(" as c")
 	}
 	return b.String()
+}
+
+// countHopQuery: stage S2n — MATCH (a)-[r]->(b) [WHERE single-variable conjuncts] RETURN count(x) [AS c].
+func (g s1Gen) countHopQuery() string {
+	kinds := func(opts []string) string { return Pick(g.rng, opts) }
+	a := "(a" + kinds([]string{"", "", ":NodeKind1", ":NodeKind2:NodeKind1"}) + ")"
+	r := "[r" + kinds([]string{"", "", ":EdgeKind1", ":EdgeKind1|EdgeKind2"}) + "]"
+	b := "(b" + kinds([]string{"", "", ":NodeKind2", ":NodeKind1:NodeKind2"}) + ")"
+	where := ""
+	if g.rng.Chance(1, 2) {
+		n := 1 + g.rng.Intn(3)
+		cs := make([]string, n)
+		for i := range cs {
+			v := Pick(g.rng, []string{"a", "r", "b", "a", "b"})
+			cs[i] = s1Gen{rng: g.rng, v: v, edge: v == "r"}.pred(2, 2)
+		}
+		where = " where " + strings.Join(cs, " and ")
+	}
+	ret := " return count(" + Pick(g.rng, []string{"a", "r", "b"}) + ")"
+	if g.rng.Chance(1, 3) {
+		ret += " as c"
+	}
+	return "match " + a + "-" + r + "->" + b + where + ret
 }
 
 // chainQuery: stage S2c — a chain of two or three directed fixed hops, kinds optional, no WHERE, every variable read by the RETURN.
@@ -249,5 +273,9 @@ func (c01TieSuite) Gen(rng *Rng, tier string, w *bufio.Writer, stats *Stats) {
 	for i := 0; i < n/6; i++ {
 		fmt.Fprintf(w, "# case %d s1c\nq %s %d 4 0 0\n", n+n/2+n/3+i+1, jsonQuote(g.countQuery()), rng.Intn(1<<20))
 		stats.Inc("s1c_generated")
+	}
+	for i := 0; i < n/6; i++ {
+		fmt.Fprintf(w, "# case %d s2n\nq %s %d 4 0 0\n", 2*n+n/6+i+1, jsonQuote(g.countHopQuery()), rng.Intn(1<<20))
+		stats.Inc("s2n_generated")
 	}
 }
